@@ -13,6 +13,22 @@ CHECKS = {
         "note": ("Trusted: the model in vf/props/c14.py and vf/gen/fsim.py. Same-second modifications are 'either'; expiry by real time is "
                  "not modelled; histories are sampled (~4k quick, ~130k thorough)."),
     },
+    "C17": {
+        "level": "exploration",
+        "technique": "hypothesis-generated histories over generated cached templates; sentinel-parsed uncached render + key->content reference model; recording / Beaker / dogpile backends",
+        "text": ("Histories of up to 30 operations (render with a context, invalidate_body / invalidate_def / invalidate_closure / invalidate(key), "
+                 "cache.set / cache.get, toggling cache_enabled) run over 1-3 generated templates sharing one backend; page, top-level defs, nested "
+                 "defs, named and anonymous blocks are cached in arbitrary combination with cache_key expressions, cache_* arguments at Template / "
+                 "<%page> / section level, buffered and filter flags. Every cached body is wrapped in sentinels and ticks a counter; the same text "
+                 "compiled with cache_enabled=False gives the uncached output, which a key->content model (independent of mako.cache / codegen) "
+                 "turns into the expected output, the exact list of bodies that must execute, the backend call sequence and its kwargs (precedence, "
+                 "int timeout, context when pass_context). Backends: recording dict CacheImpl (pass_context off/on), Beaker memory and file, "
+                 "dogpile.cache. Four dedicated probes (module-id collision, Beaker set, invalidate-before-first-render, nested cached+buffered def) "
+                 "carry their own control histories."),
+        "note": ("Trusted: the model in vf/props/c17.py. Expiry by time is out of scope (timeouts >= 3600 s); re-entrant same-key creation and "
+                 "sections sharing a key with different arguments are rejected as unspecified. URIs colliding under re.sub(r'\\W','_') are a "
+                 "known finding (same root as C08): such cases are re-run with distinct URIs and only counted."),
+    },
     "C18": {
         "level": "exploration",
         "technique": "codec x declaration x path grid sweep + hypothesis templates; differential against Template(decoded str) and by-construction output",
